@@ -22,7 +22,7 @@ HasSt(r) == "st" \in DOMAIN r
 HasDisk(r) == "disk" \in DOMAIN r
 
 EmptyHist(r) == [accepted |-> {}, seen |-> <<>>, cValid |-> FALSE, cBase |-> Zero, cEmission |-> Zero,
-                 cfg |-> r.cfg, unit |-> r.unit, sc |-> r.sc, present |-> {}, cap |-> "10000000000000000000000000000", crashed |-> FALSE, restarts |-> 0, lastFault |-> "", synced |-> FALSE, imported |-> FALSE]
+                 cfg |-> r.cfg, unit |-> r.unit, sc |-> r.sc, present |-> {}, cap |-> "10000000000000000000000000000", crashed |-> FALSE, restarts |-> 0, lastFault |-> "", synced |-> FALSE, imported |-> FALSE, diverged |-> FALSE]
 InitHist(r) == IF HasDisk(r) /\ HasSt(r)
                THEN [EmptyHist(r) EXCEPT !.cValid = TRUE, !.cBase = BaseTotal(r.disk), !.cEmission = r.st.emission]
                ELSE EmptyHist(r)
@@ -60,7 +60,10 @@ TraceStep ==
    /\ disk' = IF HasDisk(Rec(l + 1)) THEN Rec(l + 1).disk ELSE disk
    /\ IF HasSt(Rec(l + 1)) /\ Rec(l + 1).kind # "Imported" THEN StepProps ELSE LeanProps      \* lean records carry digests only: state-based clauses need the state;
                                                                                                \* an "Imported" record re-bases the trace on the state of the new chain
-   /\ hist' = NextHist(Rec(l + 1))
+   /\ hist' = LET h1 == NextHist(Rec(l + 1))  r == Rec(l + 1) IN
+              IF "obs" \in DOMAIN r /\ "ideal" \in DOMAIN r
+                 /\ \E f \in ConsFields \cap DOMAIN r.obs : f \in DOMAIN r.ideal /\ r.obs[f] # r.ideal[f]
+              THEN [h1 EXCEPT !.diverged = TRUE] ELSE h1
 
 TraceReset ==
    /\ l < N
